@@ -657,7 +657,8 @@ class HttpParser(abc.ABC, Generic[_MsgT]):
         # encoding
         enc = headers.get(hdrs.CONTENT_ENCODING, "")
         if enc.isascii() and enc.lower() in {"gzip", "deflate", "br", "zstd"}:
-            encoding = enc
+            # content-coding values are case-insensitive (RFC 9110 section 8.4.1)
+            encoding = enc.lower()
 
         # chunking
         te = headers.get(hdrs.TRANSFER_ENCODING)
